@@ -153,7 +153,7 @@ def dump_expansions(work, programs, tag="corpus"):
     return dumps, per_pid
 
 
-def annotate(work, programs, dumps):
+def annotate(work, programs, dumps, harness_sel=None):
     """returns {type name: (annotated text, inventory)}"""
     ensure_annotator()
     adir = os.path.join(work, "annotated")
@@ -162,7 +162,7 @@ def annotate(work, programs, dumps):
     job = []
     # first pass without contracts to learn the raw field names, then bind and annotate
     for p in programs:
-        cs = C.program_contracts(p)
+        cs = C.program_contracts(p, harness_sel.get(p.pid) if harness_sel is not None else None)
         for tname, recs in cs.items():
             if tname not in dumps:
                 continue
@@ -213,6 +213,9 @@ edition = "2021"
 
 [dependencies]
 arbitrary-int = "1.3.0"
+
+[features]
+test123 = []
 
 [workspace]
 
